@@ -205,9 +205,12 @@ def _isinstance_tuple_assigns(body) -> List[Tuple[str, Optional[Tuple[str, str]]
     def chain(s):
         while isinstance(s, ast.If):
             t = s.test
-            if isinstance(t, ast.Call) and isinstance(t.func, ast.Name) and t.func.id == "isinstance" and isinstance(t.args[1], ast.Name):
+            if isinstance(t, ast.Call) and isinstance(t.func, ast.Name) and t.func.id == "isinstance":
+                names = [t.args[1].id] if isinstance(t.args[1], ast.Name) else \
+                    [x.id for x in t.args[1].elts if isinstance(x, ast.Name)] if isinstance(t.args[1], ast.Tuple) else []
                 tup, node_ = tup_of(s.body)
-                out.append((t.args[1].id, tup, node_ or s))
+                for nm in names:
+                    out.append((nm, tup, node_ or s))
             if len(s.orelse) == 1 and isinstance(s.orelse[0], ast.If):
                 s = s.orelse[0]
             else:
@@ -233,11 +236,41 @@ def _r12_2(prog: Program, res: Result) -> None:
     fn = prog.func("core", "walk_sequence")
     fields = set()
     walked = set()
+    reads = []
     for n in walk_own(fn.node):
-        if isinstance(n, ast.Call) and isinstance(n.func, ast.Name) and n.func.id == "getattr" and len(n.args) >= 2 and isinstance(n.args[1], ast.Constant):
-            fields.add(n.args[1].value)
+        if isinstance(n, ast.Call) and isinstance(n.func, ast.Name) and n.func.id == "getattr" and len(n.args) >= 2:
+            if isinstance(n.args[1], ast.Constant):
+                fields.add(n.args[1].value)
+                reads.append(n)
+            elif isinstance(n.args[1], ast.Name):
+                # getattr(node, field, []) with `for field in ("body", "orelse")`
+                a = parent(n)
+                while a is not None and a is not fn.node:
+                    if isinstance(a, ast.For) and isinstance(a.target, ast.Name) and a.target.id == n.args[1].id \
+                            and isinstance(a.iter, (ast.Tuple, ast.List)) and all(isinstance(x, ast.Constant) for x in a.iter.elts):
+                        fields |= {x.value for x in a.iter.elts}
+                        reads.append(n)
+                    a = parent(a)
+        if isinstance(n, ast.Attribute) and n.attr in ("body", "orelse") and isinstance(n.value, ast.Name):
+            fields.add(n.attr)
+            reads.append(n)
         if isinstance(n, ast.Attribute) and n.attr in ("AST_TYPES_WITH_BODY", "AST_TYPES_WITH_ORELSE"):
             walked.add(n.attr)
+    # the node whose blocks are read must be the one bound by the walk over the block kinds (no rebinding in between)
+    walk_loop = next((n for n in walk_own(fn.node) if isinstance(n, ast.For) and isinstance(n.target, ast.Name)
+                      and "AST_TYPES_WITH" in norm(n.iter)), None)
+    if walk_loop is not None:
+        pa = PathAnalysis(prog, fn)
+        want = f"{walk_loop.target.id}#i{pa.nid(walk_loop)}"
+        for rd in reads:
+            var = rd.args[0] if isinstance(rd, ast.Call) else rd.value
+            if not (isinstance(var, ast.Name) and var.id == walk_loop.target.id):
+                continue
+            toks = {w.token(var.id) for w in pa.worlds_at(rd)}
+            ok = toks == {want}
+            res.decide(ok, "R12.2", fn.loc(rd), fn.fq, f"block read {norm(rd)}",
+                       "reads the block of the node bound by the walk" if ok else
+                       f"'{var.id}' may have been rebound (by an inner loop) when its block is read ({sorted(toks)}): the statements of another node are searched instead")
     for kind in sorted(REQUIRED_BODY):
         ok = kind in body and "AST_TYPES_WITH_BODY" in walked and "body" in fields
         res.decide(ok, "R12.2", fn.loc(), fn.fq, f"sequence patterns searched in {kind}.body",
@@ -393,6 +426,14 @@ VARIANTS = [
             "        if isinstance(node, type(template)):\n            return _match_template_vars(node, template, ignore=ignore)\n\n        return ()",
             "        if isinstance(node, ast.AST):\n            return _match_template_vars(node, template, ignore=ignore)\n\n        return ()", "R12.4"),
     Variant("consistency-allows-two", "FIRE", "core", "                if len(options) > 1:\n                    return False", "                if len(options) > 2:\n                    return False", "R12.4"),
+    Variant("question-mark-widened-like-star", "FIRE", "core",
+            "        if isinstance(node, ZeroOrMany):\n            node_counts[i, node.template] = (0, slack)", "        if isinstance(node, (ZeroOrOne, ZeroOrMany)):\n            node_counts[i, node.template] = (0, slack)", "R12.1"),
+    Variant("blocks-read-lazily-after-rebinding", "FIRE", "core",
+            "        for body in [getattr(node, \"body\", []), getattr(node, \"orelse\", [])]:\n            if not body:",
+            "        for field in (\"body\", \"orelse\"):\n            body = getattr(node, field, [])\n            if not body:", "R12.2"),
+    Variant("blocks-read-by-field-loop", "SILENT", "core",
+            "        for body in [getattr(node, \"body\", []), getattr(node, \"orelse\", [])]:\n            if not body:",
+            "        scope_node = node\n        for field in (\"body\", \"orelse\"):\n            body = getattr(scope_node, field, [])\n            if not body:"),
     Variant("ignore-as-constant-reordered", "SILENT", "core",
             "DEFAULT_IGNORE = frozenset((\"lineno\", \"end_lineno\", \"col_offset\", \"end_col_offset\", \"kind\"))",
             "DEFAULT_IGNORE = frozenset({\"kind\", \"end_col_offset\", \"col_offset\", \"end_lineno\", \"lineno\"})"),
